@@ -282,3 +282,19 @@ Theorem C08_file_lookup_is_the_regenerated_code : forall c s e, 0 < fcad c -> 0 
   gen_file_list c s e = get_file_list ExactRational c s e.
 Proof. exact get_file_list_regen. Qed.
 Print Assumptions C08_file_lookup_is_the_regenerated_code.
+
+(* the per-row clipping of `_read` (which slice of rf_data a row of rf_data_index contributes to a
+   requested range, or none), regenerated from the source by translator T9 (Gen/RfReadGen.v), is the
+   step of the model's row loop *)
+From DRF Require Import Gen.RfReadGen Proofs.RfReadGenProofs.
+
+Theorem C08_row_clipping_is_the_regenerated_code : forall (P : Type) (mk : Z -> Z -> P) bss bsi rest dlen s e,
+  read_rows_gen mk ((bss, bsi) :: rest) dlen s e =
+  let bstop := match rest with [] => dlen | (_, o') :: _ => o' end in
+  let tail := read_rows_gen mk rest dlen s e in
+  match gen_row_clip bss bsi bstop s e with
+  | Some (rss, rsi, rstop) => (rss, mk rsi rstop) :: tail
+  | None => tail
+  end.
+Proof. exact (@read_rows_step_regen). Qed.
+Print Assumptions C08_row_clipping_is_the_regenerated_code.
